@@ -254,7 +254,7 @@ def jobs(tier, seed):
     base = dict(R=3 if q else 4, L=3 if q else 4)
     scan = dict(base) if q else dict(base, L=3)          # scans: the offset arithmetic over 16 cells exceeds the per-query solver budget
     out = [dict(scan, op="cumsum"), dict(scan, op="cumsum", via="np"), dict(scan, op="acc_add"), dict(scan, op="acc_subtract"),
-           dict(scan, op="acc_bitwise_xor"), dict(base, op="sort"), dict(base, op="sort", via="np"),
+           dict(scan, op="acc_bitwise_xor", R=3),          # 64-bit vectors: 45 s per path at four rows dict(base, op="sort"), dict(base, op="sort", via="np"),
            dict(base, op="unique", R=3, L=3), dict(base, op="unique_counts", R=3, L=3),
            dict(base, op="diff", n=1), dict(base, op="diff", n=1, via="np"), dict(base, op="diff", n=2), dict(base, op="diff", n=3, L=4)]
     for op in ("sort", "unique", "unique_counts"):
